@@ -827,3 +827,50 @@ S("Q35", "C19", "C19-r7a", "R-C19-TREE", "ntheory_util.ExtendedProductTree's ear
 S("Q36", "C19", "C19-r7b", "R-C19-FISHER", "randomness_tests/util.CombinedPValue no longer returns 0 when a p-value is 0; the `min(pva")
 S("Q37", "C20", "C20-r7a", "R-C20-WIDTH", "rng.XorShift128plus.RandomBits computes the number of 64-bit blocks as `n // 64 + 1` inste")
 S("Q38", "C20", "C20-r7b", "R-C20-PURE", "rng.Mwc.RandomBits now reduces a given seed modulo a*b-1 up front and merges the seeded an")
+
+
+# ---------------------------------------------------------------------------------- mutation-fuzz guided rules (R-C19-LINALG, R-C19-SIEVE, R-C08-EXTRACT, ...)
+LA_ = L + "linalg_util.py"
+F("R01", "C19", LA_, "    num = b[i] - sum(a[i][j] * xs[j] for j in range(i + 1, ncols))", "    num = b[i] - sum(a[i][j] * xs[j] for j in range(i + 2, ncols))",
+  "R-C19-LINALG", "back-substitution forgets the nearest solved unknown")
+F("R02", "C19", LA_, "  for i in range(nrows - 1, -1, -1):\n    den = a[i][i]", "  for i in range(nrows):\n    den = a[i][i]",
+  "R-C19-LINALG", "back-substitution runs top-down (uses unknowns not yet solved)")
+F("R03", "C19", LA_, "    if den == 0:\n      return None", "    if den == 0:\n      den = 1", "R-C19-LINALG", "zero pivot replaced by 1 instead of giving None")
+F("R04", "C19", LA_, "  rank = echelon_form(a, b)\n  if rank != ncols:", "  rank = echelon_form(a)\n  if rank != ncols:", "R-C19-LINALG", "elimination on a only: b keeps the original right-hand side")
+F("R05", "C19", LA_, "  return upper_triangular_solve(a[:rank], b[:rank])", "  return upper_triangular_solve(a[:rank], b[-rank:])", "R-C19-LINALG", "last rows of b paired with first rows of a")
+F("R06", "C19", LA_, "  if rank != ncols:\n    return None  # Not", "  if rank > ncols:\n    return None  # Not", "R-C19-LINALG", "rank-deficient systems are back-substituted")
+F("R07", "C19", LA_, "        b[j] = a[i][i] * b[j] - a[j][i] * b[i]", "        b[j] = a[i][i] * b[j] + a[j][i] * b[i]", "R-C19-LINALG", "b gets a different row operation than a")
+F("R08", "C19", LA_, "          b[j] //= a[i - 1][i - 1]", "          b[j] //= a[i][i]", "R-C19-LINALG", "b divided by the current instead of the previous pivot")
+F("R09", "C19", LA_, "        a[j][k] //= a[i - 1][i - 1]\n", "        a[j][k] //= a[i][i]\n", "R-C19-LINALG", "a divided by the current pivot (division not exact)")
+F("R10", "C19", LA_, "        if b:\n          b.insert(nrows, b.pop(j))\n        a.insert(nrows, a.pop(j))\n        nrows -= 1", "        a.insert(nrows, a.pop(j))\n        nrows -= 1",
+  "R-C19-LINALG", "dependent row moved in a but not in b")
+F("R11", "C19", LA_, "    j = i + 1\n    while j < nrows:", "    j = i + 2\n    while j < nrows:", "R-C19-LINALG", "row i+1 is never reduced")
+F("R12", "C19", LA_, "        a.insert(nrows, a.pop(j))\n        nrows -= 1\n      else:", "        a.insert(nrows, a.pop(j))\n        nrows -= 1\n        j += 1\n      else:",
+  "R-C19-LINALG", "the row that slides into position j after a move is skipped")
+F("R13", "C19", LA_, "  while i < n - 1:\n    # Searches", "  while i < n - 2:\n    # Searches", "R-C19-LINALG", "last pivot column not eliminated")
+F("R14", "C19", LA_, "      for j in range(i + 1, nrows):\n        if b:\n          b[j] //=", "      for j in range(i, nrows):\n        if b:\n          b[j] //=",
+  "R-C19-LINALG", "pivot row divided again")
+F("R15", "C19", LA_, "      if b:\n        b[j] = a[i][i] * b[j] - a[j][i] * b[i]\n      all_zeros = True\n      for k in range(i + 1, ncols):\n        a[j][k] = a[i][i] * a[j][k] - a[j][i] * a[i][k]\n        if all_zeros and a[j][k] != 0:\n          all_zeros = False\n      a[j][i] = 0\n",
+  "      all_zeros = True\n      for k in range(i + 1, ncols):\n        a[j][k] = a[i][i] * a[j][k] - a[j][i] * a[i][k]\n        if all_zeros and a[j][k] != 0:\n          all_zeros = False\n      a[j][i] = 0\n      if b:\n        b[j] = a[i][i] * b[j] - a[j][i] * b[i]\n",
+  "R-C19-LINALG", "b updated after a[j][i] was cleared (multiplier read as 0)")
+T("R16", "C19", LA_, "    num = b[i] - sum(a[i][j] * xs[j] for j in range(i + 1, ncols))\n    xs[i] = gmpy.mpq(num, den)",
+  "    acc = 0\n    for j in range(i + 1, ncols):\n      acc += a[i][j] * xs[j]\n    xs[i] = gmpy.mpq(b[i] - acc, den)", "back-substitution sum as an accumulator loop")
+T("R17", "C19", LA_, "  for i in range(nrows - 1, -1, -1):\n    den = a[i][i]", "  for i in reversed(range(nrows)):\n    den = a[i][i]", "reversed(range(n))")
+T("R18", "C19", LA_, "        if b:\n          b.insert(nrows, b.pop(j))\n        a.insert(nrows, a.pop(j))\n        nrows -= 1", "        a.insert(nrows, a.pop(j))\n        if b:\n          b.insert(nrows, b.pop(j))\n        nrows -= 1",
+  "row move of a before that of b")
+NT_ = L + "ntheory_util.py"
+F("R20", "C19", NT_, "  for i in range(2, gmpy.isqrt(n) + 1):", "  for i in range(2, gmpy.isqrt(n)):", "R-C19-SIEVE", "candidate isqrt(n) is not sieved (its square is reported prime)")
+F("R21", "C19", NT_, "      for j in range(i * i, n, i):", "      for j in range(i * i + i, n, i):", "R-C19-SIEVE", "squares of primes are not cleared")
+F("R22", "C19", NT_, "      for j in range(i * i, n, i):", "      for j in range(i * i, n, i + 1):", "R-C19-SIEVE", "stride is not the candidate")
+T("R23", "C19", NT_, "      for j in range(i * i, n, i):", "      for j in range(2 * i, n, i):", "multiples from 2i")
+HN_ = L + "hidden_number_problem.py"
+F("R30", "C08", HN_, "      guess = (v[1] * inverse) % n\n      guesses.add(int(guess))\n  return list(guesses)\n\n\ndef HiddenNumberProblemWithPrecomputation", "      guess = (v[0] * inverse) % n\n      guesses.add(int(guess))\n  return list(guesses)\n\n\ndef HiddenNumberProblemWithPrecomputation",
+  "R-C08-EXTRACT", "guess taken from the wrong coordinate")
+U("R31", "C08", HN_, "      guesses.add(int(guess))\n  return list(guesses)\n\n\ndef HiddenNumberProblemWithPrecomputation", "      pass\n  return list(guesses)\n\n\ndef HiddenNumberProblemWithPrecomputation",
+  "no guess is ever collected")
+CR_ = L + "cr50_u2f_weakness.py"
+F("R32", "C08", CR_, "  b = -r1 * s2 % n\n  w = (r2 * z1 - r1 * z2) % n", "  b = r1 * s2 % n\n  w = (r2 * z1 - r1 * z2) % n", "R-C08-EXTRACT", "sign of the second coefficient of the U2F sub-problem")
+F("R33", "C08", CR_, "    x1 = (s1 * k1 - z1) * r1inv % n", "    x1 = (s1 * k1 + z1) * r1inv % n", None, "private key formula x = (s k - z)/r")
+F("R40", "C11", L + "ec_util.py", "      x, y = p\n      return (x, y, 1)", "      x, y = p\n      return (x, y, 0)", "R-C11-FORMULA", "finite point converted to a Jacobian point at infinity")
+F("R41", "C11", L + "ec_util.py", "      x, y = p\n      return (x, y, 1)", "      x, y = p\n      return (y, x, 1)", "R-C11-FORMULA", "coordinates swapped by AffineToJacobian")
+F("R42", "C02", L + "ec_util.py", "      x, y = p\n      return (x, y, 1)", "      x, y = p\n      return (x, y, 2)", "R-C02-VERIFY", "z = 2: Multiply(G, k) no longer reproduces the key")
